@@ -59,7 +59,7 @@ def r18_8_no_carry_over(chk):
     it: in the function that builds the frame data of all logical files, the arguments of the per-frame factory are
     free of loop-carried values (a variable re-bound inside the loop over the logical files carries one file's data
     into the next)."""
-    from ..terms import subterms, pp
+    from ..terms import subterms, pp, call_name
     from ._layout import frame_data_plan
     plan = frame_data_plan(chk)
     ix = chk.ix
@@ -68,7 +68,10 @@ def r18_8_no_carry_over(chk):
         raise AnalysisError("DLISFile.generate_logical_records not found")
     chk.consult(gen)
     gs = chk.terms.inline(gen, 2, stop=lambda h: h.cls is not gen.cls or h.name == "__init__")
-    calls = [c for c, tg in gs.calls.items() if plan.func in tg and c in gs.precise]
+    unique_name = sum(1 for h in ix.functions.values() if h.name == plan.func.name) == 1
+    calls = [c for c in gs.all_calls() if (plan.func in gs.calls.get(c, ()) and c in gs.precise) or
+             (unique_name and call_name(c) == plan.func.name)]
+    calls = list(dict.fromkeys(calls))
     chk.floor("calls of the per-frame data factory", len(calls), 1)
     for c in calls:
         carried = [x for a in list(c[2]) + [v for _, v in c[3]] for x in subterms(a) if x[0] in ("mu", "fold")]
